@@ -1,7 +1,7 @@
 (** C18 — statements that are NOT proved (the property is PARTIAL by design).  Kept as
     Definitions so that they are type-checked and visible; nothing here is used by Properties.v. *)
 From Coq Require Import List ZArith NArith Bool.
-From Kardia Require Import C18.Model C18.ProofsBits C18.Proofs.
+From Kardia Require Import C18.Model C18.ModelFetcher C18.ProofsBits C18.Proofs C18.ProofsFetcher C18.ProofsFetcherEmpty.
 Local Open Scope Z_scope.
 
 (** 1. No hang: the real handlers return within a deadline.  Measured by the harness watchdog
@@ -20,6 +20,20 @@ Local Open Scope Z_scope.
 Definition open_consensus_routine_no_crash (handle_msg : msg -> PRS -> outcome) : Prop :=
   forall m p, msg_ok m -> wf_prs p -> handle_msg m p <> Crash.
 
-(** 4. The tx-pool, evidence and PEX reactors are modelled at decode level only
-    ([tx_receive], [ev_receive], [pex_receive]); block-sync scheduler/processor (duplicate-height
-    enqueue) are exercised by the harness with the real routines running, not modelled. *)
+(** 4. The evidence reactor is modelled at decode level only ([ev_receive]); block-sync
+    scheduler/processor (duplicate-height enqueue) are exercised by the harness with the real
+    routines running, not modelled.  The PEX address decoder and the tx fetcher are modelled
+    (Model.pex_receive, ModelFetcher.v). *)
+
+(** 5. The fetcher: IC and IA are proved inductive over all histories (C18_fetcher_invariants), the
+    index part of GOOD for every event except a direct reply (C18_fetcher_index_invariant_partial).
+    Not proved inductive: the stage-disjointness part of [fetcher_ok] (queued / waiting / fetching are
+    exclusive; the live hashes of a request are exactly what is being fetched from that peer; no hash
+    twice in a request), which excludes the remaining three explicit panics ("announce tracker already
+    contains waitlist item", "announced tracker already contains alternate item" twice) and carries
+    the index part through a partial direct reply.  It is evaluated on every state the model reaches
+    and checked on the implementation's trackers after every event.  The full statements: *)
+Definition open_fetcher_no_crash : Prop :=
+  forall evs, ProofsFetcher.frun ModelFetcher.f0 evs <> ModelFetcher.FCrash.
+Definition open_fetcher_good_invariant : Prop :=
+  forall evs s, ProofsFetcher.frun ModelFetcher.f0 evs = ModelFetcher.FOk s -> ProofsFetcherEmpty.GOOD s.
